@@ -120,7 +120,7 @@ func TestC15_Exhaustive(t *testing.T) {
 	opts := allOptSets()
 	enumStrings(c15Alphabet, lenAll, true, func(parts []string) {
 		in := runesOf(parts)
-		for _, k := range tokKinds {
+		for _, k := range tokKindsExt {
 			c15RunInput(rec, k, in, opts)
 		}
 	})
@@ -131,6 +131,16 @@ func TestC15_Exhaustive(t *testing.T) {
 func genOptInput(t *rapid.T, kind string) string {
 	frags := []string{" ", "  ", "\t", "\n", "a", "ab", "1", "12", "1.5", ".5", "-3", "'x'", "\"y\"", "'a''b'", "'é'", "\"\"", "''", "'un", "😀", " ", "<", "<=", "<>", "=", ",", "+", "-", ".", "{", "}", "x_1"}
 	switch kind {
+	case "generic+sym":
+		frags = append(frags, "...", "..", ". .", "=:~", "=:", "=", "-->", "--", "::=", "::", "≠≠", "≠", "<=>", "<=", "a..", "x=:")
+	case "expression+cpp":
+		frags = append(frags, "// c\n", "//", "/", "a /", "/* c */", "/*", "1//2", "x // y")
+	case "generic+ws":
+		frags = append(frags, "\n", " \n ", "\n\n", "。", "你好。世界", "　", "a　b", "\t\n\t")
+	case "csv+cfg":
+		frags = append(frags, "，", "«a，b»", "'x''y'", "“q”", "名，b", ";", "|", "\r\n", "«")
+	}
+	switch baseKind(kind) {
 	case "generic":
 		frags = append(frags, "# c", "#c\n", " # c \n ", "1 # c\n 2")
 	case "expression":
@@ -162,7 +172,7 @@ func TestC15_Rapid(t *testing.T) {
 	rec := evid.New("C15", "TestC15_Rapid", "C15", c15Rule+"; rapid: fragment-built inputs (blank-comment-blank, Unknown characters, numbers, quoted strings) x random option set")
 	defer finish(t, rec)
 	runRapid(t, pick(40000, 300000), 15, func(rt *rapid.T) {
-		kind := rapid.SampledFrom(tokKinds).Draw(rt, "tok")
+		kind := rapid.SampledFrom(tokKindsExt).Draw(rt, "tok")
 		c := c15Case{kind, rapid.IntRange(0, optAll).Draw(rt, "opts"), genOptInput(rt, kind)}
 		base, f := tokenizeFresh(kind, 0, c.Input)
 		nt := f == nil && c15Affected(kind, base, c.Opts) >= 2
